@@ -103,7 +103,8 @@ def pair_keys_rule(ctx: Ctx, rule: str) -> int:
     """every comprehension / loop of the composer that yields (key, hash) pairs builds the key from its loop variable"""
     rep = ctx.report
     prog = ctx.prog
-    comp_f = prog.funcs.get("dds.introspect._build_return_sig")
+    from .roles import composer as _role_composer
+    comp_f = _role_composer(ctx)
     n8 = 0
     if comp_f is None:
         raise AnchorError("dds.introspect._build_return_sig not found")
